@@ -482,4 +482,97 @@ theorem check_memo {fc : FC} (hfc : FCAll s d fc) :
 
 end
 
+
+/- ---------- `findConflict` ---------- -/
+
+section
+variable {s : Schema} {d : QueryDoc} (M : MemoHyps s d)
+include M
+
+theorem fcLevel_memo : ∀ k, FCAll s d (fcLevel (envOf s d (fullLinks d)) k)
+  | 0 => by
+    intro _ _ _ _ _ _ _ _ h
+    simp [fcLevel] at h
+  | k + 1 => by
+    intro ρ excl a b st st' hP hI h
+    obtain ⟨ha, hb, hrk⟩ := hP
+    simp only [fcLevel] at h
+    have hta : (⟨a.next s.view, a.node.sel⟩ : Spec.TSet) ∈ Spec.docSets s d := by
+      rw [ha.next_fieldType M.H]
+      exact docSets_field ha.inDoc
+    have htb : (⟨b.next s.view, b.node.sel⟩ : Spec.TSet) ∈ Spec.docSets s d := by
+      rw [hb.next_fieldType M.H]
+      exact docSets_field hb.inDoc
+    refine findConflictBody_silent (envOf s d (fullLinks d)) _ excl a b st st'
+      (fun excl' => subSets_silent (fcLevel_memo k ρ) excl' a b ?_ ?_ ?_ ?_) hI h
+    · intro a' ha' b' hb'
+      have h1 := rkS_sub (d := d) ha'
+      have h2 := rkS_sub (d := d) hb'
+      exact ⟨ha.sub M.H ha', hb.sub M.H hb', by omega⟩
+    · intro sp hsp
+      have hd' : DSpread d sp := docF_spread hb hsp
+      obtain ⟨F, hF⟩ := M.defined sp hd'
+      have hlt := rkSp_lt M.acyclic hsp hF
+      exact chain_memo M (fcLevel_memo k) _ ρ excl' _ hta sp hd' (by simp only; omega)
+    · intro sp hsp
+      have hd' : DSpread d sp := docF_spread ha hsp
+      obtain ⟨F, hF⟩ := M.defined sp hd'
+      have hlt := rkSp_lt M.acyclic hsp hF
+      exact chain_memo M (fcLevel_memo k) _ ρ excl' _ htb sp hd' (by simp only; omega)
+    · intro sa hsa sb hsb
+      have hda : DSpread d sa := docF_spread ha hsa
+      have hdb : DSpread d sb := docF_spread hb hsb
+      obtain ⟨F, hF⟩ := M.defined sa hda
+      obtain ⟨G, hG⟩ := M.defined sb hdb
+      have h1 := rkSp_lt M.acyclic hsa hF
+      have h2 := rkSp_lt M.acyclic hsb hG
+      exact check_memo M (fcLevel_memo k) _ ρ excl' sa sb hda hdb (by omega)
+
+/-- a rank above every rank -/
+def rkTop (d : QueryDoc) : Nat := 2 * d.frags.length + 1
+
+/-- **one observer call**, under the full link table: from a fragment-pair memo whose keys are all
+    refuted, a silent call refutes `TopHolds` for its selection set and leaves such a memo -/
+theorem overlapRun_memo (t : Spec.TSet) (ht : t ∈ Spec.docSets s d) (st0 : OSt) (hP : PairsI s d (rkTop d) st0.pairs)
+    (r : OSt × List Conflict) (h : overlapRun s.view d (fullLinks d) t.parent t.sels st0 = some r) (he : r.2 = []) :
+    ¬ TopHolds (envOf s d (fullLinks d)) t.parent t.sels ∧ PairsI s d (rkTop d) r.1.pairs := by
+  unfold overlapRun at h
+  simp only at h
+  have hrk : ∀ names, rkN d names + rkN d names < rkTop d + 0 ∧ True := fun names => by
+    have := rkN_le d names
+    exact ⟨by unfold rkTop; omega, trivial⟩
+  have hI0 : (memoFrame s d (rkTop d)).I { st0 with seen := [] } :=
+    ⟨hP, fun _ _ _ _ _ _ hm => by cases hm⟩
+  have key := top_silent (F := memoFrame s d (rkTop d)) (P := PRank s d (rkTop d)) (fcLevel_memo M _ (rkTop d))
+    t.parent t.sels
+    (fun a ha b hb => ⟨DocF.ofSet ht ha, DocF.ofSet ht hb, by
+      have h1 := rkN_le d (Spec.spreadsOfSels a.node.sel)
+      have h2 := rkN_le d (Spec.spreadsOfSels b.node.sel)
+      unfold rkS rkTop
+      omega⟩)
+    (fun sp hsp => by
+      have hd' : DSpread d sp := docSet_spread ht hsp
+      have h1 := rkN_le d (Spec.spreadsOfSels t.sels)
+      have h2 := rkN_le d (Spec.fragSpreads d sp.name)
+      exact chain_memo M (fcLevel_memo M _) _ (rkTop d) false t ht sp hd' (by unfold rkS rkSp rkTop; omega))
+    (fun sa hsa sb hsb => by
+      have hda : DSpread d sa := docSet_spread ht hsa
+      have hdb : DSpread d sb := docSet_spread ht hsb
+      have h1 := rkN_le d (Spec.fragSpreads d sa.name)
+      have h2 := rkN_le d (Spec.fragSpreads d sb.name)
+      exact check_memo M (fcLevel_memo M _) _ (rkTop d) false sa sb hda hdb (by unfold rkSp rkTop; omega))
+    st0 r hI0 h he
+  refine ⟨key.1, ?_⟩
+  cases hemp : selsEmpty t.sels with
+  | false => exact (key.2 hemp).1.1
+  | true =>
+    unfold findConflictsWithinSelectionSet at h
+    rw [hemp] at h
+    simp only [if_true] at h
+    injection h with h
+    subst h
+    exact hP
+
+end
+
 end Gql.Validate
